@@ -20,40 +20,55 @@ import treeutil as tu
 from common import time_limit, Timeout, hex6
 
 ID = "C12"
-GEN_DEPENDS = []
+GEN_DEPENDS = ["C12Copy", "C08Kernels"]
 RULE = ("random Tree / TreeList / CharacterMatrix (DNA, RNA, protein, standard, continuous) / TaxonNamespace objects with "
         "annotations (plain, list/dict valued, nested, attribute-bound incl. foreign owners), comments, encoded bipartitions, "
         "extra attributes and cross references x copy route (copy.deepcopy, clone(0|1|2), copy constructor, copy.copy, "
         "taxon_namespace_scoped_copy, constructor with another namespace, extract_tree) x >= 20 later mutations of one side; "
+        "every route incl. the shallow ones (copy.copy / clone(0) of TreeList and CharacterMatrix, TaxonNamespace(ns)) is also run "
+        "on the Lean model and the canonical graphs are compared; "
         "thorough adds every tree shape <= 5 leaves x every tree route x decoration on/off; "
         "non-trivial = the source graph has >= 10 mutable objects")
 MODELLED_NOT_VERIFIED = [
     "C12: copy.deepcopy's dispatch for built-in containers (list, dict, set, tuple and objects copied through __reduce_ex__) is "
-    "modelled as 'allocate, register in the memo, copy the fields in order'; dict/set hashing and __dict__ iteration order are not modelled",
+    "modelled as 'allocate, register in the memo, copy the fields in order'; dict/set hashing is not modelled (the `_item_set` twin "
+    "of an annotation set's item list is compared as a set); the per-case comparison sorts attributes by name (a changed `__dict__` "
+    "order is a harmless refactoring), so the attribute ORDER proved in copy_iso is a statement about the model only",
     "C12: the heap handed to the Lean model is exported from the real objects by harness/props/c12.py (every __dict__ attribute, "
     "list, dict, set, tuple; StateAlphabet/StateIdentity singletons, classes and functions are atoms)",
     "C12: Node.extract_subtree is modelled on the shared rose-tree type without a node filter (filters belong to C08); "
     "the constructor with another namespace receives the label-matched taxon mapping from the harness (require_taxon belongs to C10/C11)",
+    "C12: the shallow routes (shallowMembers: TreeList.__copy__ / CharacterMatrix.__copy__; shallowNs: TaxonNamespace(ns)) are modelled "
+    "and compared per case, but no theorem is stated about them beyond what holds of cpFields/cpItems; the instance the route "
+    "constructs (`cls(label=self.label, taxon_namespace=self.taxon_namespace)`) is built by the harness with the same constructor call "
+    "and handed to the model; the constructor's own `__dict__` order is not modelled",
     "C12: the interpreter recursion limit (deep caterpillars raise RecursionError: known finding) is not modelled",
 ]
 EXPLANATION = ("Theorems about the fuelled heap model of Annotable.__deepcopy__ / Taxon / TaxonNamespace / AnnotationSet copying "
                "with deep_copy_annotations_from and its re-targeting, for every heap (cycles allowed) and every pre-seeded memo: "
                "copy_total / route_total (on a well-formed exported heap the copy and the driver's copyRoute return ok; the harness "
-               "checks well-formedness of every exported heap and reports a heap outside the hypotheses), copy_iso_partial / "
-               "route_iso_partial / copy_root_corresponds (equality at object level: every memo entry that was not pre-seeded pairs a "
-               "source object with a copy of the same class and kind whose attributes are exactly the memo-images of the source's, "
-               "none left half-built), copy_fresh, copy_memo_injective, copy_no_write (+ _deep, _scoped), copy_disjoint / "
-               "copy_shares_only_preseeded / deep_copy_shares_nothing, frame_interleaved_history (any interleaving of later "
-               "source-side and copy-side overwrites and allocations: each side ends as if the other side's writes had not happened), "
-               "bound_annotation_follows (in the FINAL state the copy of an attribute-bound annotation is bound to a memo-image of "
-               "the source's owner and to the same attribute: the `_value` exemption of copy_iso_partial lifted), "
-               "frame_source_history, frame_source_write / frame_copy_write, fuel_mono / fuel_result_unique, route_spec / "
-               "route_no_write / route_shares_only_preseeded, extract_leaves, extract_suppresses, extract_nosup_attrs, "
-               "extract_sup_labels, extract_sup_pathsums (root-to-leaf length sums survive suppression). NOT PROVED (correspondence "
-               "and oracle only): membership and order of annotation sets, attribute order, functionality of the memo "
-               "(copy_iso_partial); the label match of the other-namespace pre-seeding (computed by the harness); "
-               "shallow routes (never sent to the model). frame_copy_history and the one-step corollaries carry no content beyond "
-               "copy_no_write*.")
+               "checks well-formedness of every exported heap and reports a heap outside the hypotheses), copy_iso / route_iso / "
+               "copy_root_corresponds (equality at object level, FULL: every memo entry that was not pre-seeded pairs a source object "
+               "with a completed copy of the same class and kind whose attributes are IN __dict__ ORDER the memo-images of the source's "
+               "planned attributes, the rebuilt _annotations link last; an annotation set with a fresh three-attribute AnnotationSet "
+               "whose item list holds IN ORDER the memo-images of the source's items and whose target is the image of the source's "
+               "target or the owner's copy; the memo is functional), copy_memo_functional, copy_shares_preseeded (POSITIVE sharing: an "
+               "attribute whose source value is a pre-seeded object holds that object's seeded image itself - the namespace and taxa of "
+               "a namespace-scoped copy are the very objects of the source), copy_fresh, copy_memo_injective, copy_no_write (+ _deep, "
+               "_scoped), copy_disjoint / copy_shares_only_preseeded / deep_copy_shares_nothing, frame_interleaved_history (any "
+               "interleaving of later source-side and copy-side overwrites and allocations: each side ends as if the other side's "
+               "writes had not happened), bound_annotation_follows (in the FINAL state the copy of an attribute-bound annotation is "
+               "bound to a memo-image of the source's owner and to the same attribute), frame_source_history, frame_source_write / "
+               "frame_copy_write, fuel_mono / fuel_result_unique, route_spec / route_no_write / route_shares_only_preseeded, "
+               "extract_leaves, extract_suppresses, extract_nosup_attrs, extract_sup_labels, extract_sup_pathsums. Tie A (regenerated "
+               "from the source on every run): planFields_bridge (which attributes the three __deepcopy__ loops skip, _taxa first, "
+               "annotations last), cloneDepth_bridge (clone(0|1|2) dispatch, TypeError otherwise), retarget_bridge (the re-targeting "
+               "test and the memo registration of deep_copy_annotations_from, the self-seeding of the scoped routes), absorb_bridge "
+               "(the length merge of extract_subtree and the default of suppress_unifurcations). PARTIAL: retarget_step_partial "
+               "(single step; the final-state form is bound_annotation_follows), copy_independent_partial (bundle). NOT PROVED "
+               "(correspondence and oracle only): the shallow routes; the label match of the other-namespace pre-seeding (computed by "
+               "the harness); functionality of the memo the route's own pre-seeding produces (route_iso states it relative to s0.m). "
+               "frame_copy_history and the one-step corollaries carry no content beyond copy_no_write*.")
 
 # ---------------------------------------------------------------------------------------------------------------------
 # object graph export (the REAL graph: every __dict__ attribute, list, dict, set, tuple), ids renumbered
@@ -1416,7 +1431,28 @@ def run_case(ctx, dendropy, spec, pending=None, report=True):
             gm.objs, gm.index_of, gm.keep = list(g.objs), dict(g.index_of), list(g.keep)
             gm, cv = export(dendropy, [cp], graph=gm)
             got = canon(gm.objs, cv[0], n_src)
-            pending.append((model_line(rclass, rootvals[0], pre, src_objs), spec, got, (n_src, src_objs, n_own, real_changed)))
+            pending.append((model_line(rclass, rootvals[0], pre, src_objs), spec, got, (n_src, src_objs, n_own, real_changed, n_src)))
+        elif rclass == "shallow":
+            # the shallow routes of the model (shallowMembers / shallowNs).  Both graphs are canonicalised relative to the source
+            # graph proper (n_own): the instance the route constructs (`cls(label=..., taxon_namespace=...)`, built here by the same
+            # constructor call and exported after the source) lends its attribute values to the model's copy
+            gm = Graph()
+            gm.objs, gm.index_of, gm.keep = list(src_mut_objs), dict(g.index_of), list(g.keep)
+            gm, cv = export(dendropy, [cp], graph=gm)
+            got = canon(gm.objs, cv[0], n_own)
+            if objkind == "ns":
+                all_objs = list(src_mut_objs)
+                line = " ".join(["shallow", "N", str(rootvals[0][1]), "-", "-"] + enc_objs(all_objs))
+            else:
+                blank = type(src)(label=src.label, taxon_namespace=ns_src)
+                gb = Graph()
+                gb.objs, gb.index_of, gb.keep = list(src_mut_objs), dict(g.index_of), list(g.keep)
+                gb, bv = export(dendropy, [blank], graph=gb)
+                all_objs = list(gb.objs)
+                mem = "_trees" if objkind == "treelist" else "_taxon_sequence_map"
+                line = " ".join(["shallow", "M", str(rootvals[0][1]), str(bv[0][1]), hex6(mem)] + enc_objs(all_objs))
+            ctx.count("shallow_routes_sent_to_model")
+            pending.append((line, spec, got, (len(all_objs), all_objs, n_own, real_changed, n_own)))
         elif rclass == "extract":
             toks, ids = tu.encode_tree(src)
             etoks = [hex6(ids.node(i)._edge._label) for i in range(len(ids))]
@@ -1603,12 +1639,12 @@ def flush(ctx, pending):
             if not m.startswith("err"):
                 ctx.disagree("copy", spec, "raises", m[:200])
             continue
-        n_src, src_objs, n_own, real_changed = aux
+        n_src, src_objs, n_own, real_changed, canon_base = aux
         objs, root = dec_model(m, n_src, src_objs)
         if objs is None:
             ctx.disagree("copy", spec, "\n".join(got)[:300], m[:200])
             continue
-        want = canon(objs, root, n_src)
+        want = canon(objs, root, canon_base)
         if want != got:
             d = [(a, b) for a, b in zip(got, want) if a != b][:2]
             ctx.disagree("copy", spec, str(d and d[0][0] or len(got))[:300], str(d and d[0][1] or len(want))[:300])
@@ -1635,11 +1671,52 @@ def gen_spec(rng, quick):
     return spec
 
 
+def clone_dispatch(ctx, dendropy):
+    """which copy `clone(depth)` dispatches to, observed on the real `DataObject.clone` through a subclass that records the hook called,
+    compared with the model's `cloneDepth` (tie A bridges it to the source as well)"""
+    calls = []
+
+    class Spy(dendropy.Tree):
+        def __copy__(self):
+            calls.append("shallow")
+            return self
+
+        def taxon_namespace_scoped_copy(self, memo=None):
+            calls.append("scoped")
+            return self
+
+        def __deepcopy__(self, memo=None):
+            calls.append("deep")
+            return self
+    sp = Spy()
+    depths = [0, 1, 2, 3, 4, 11]
+    real = []
+    for d in depths:
+        del calls[:]
+        try:
+            sp.clone(d)
+            real.append(calls[0] if len(calls) == 1 else "calls:%s" % ",".join(calls))
+        except TypeError:
+            real.append("TypeError")
+    outs = ctx.ask(["clone-depth %d" % d for d in depths])
+    for d, r, m in zip(depths, real, outs):
+        if m is None:
+            continue
+        ctx.compared()
+        ctx.case(["clone-depth", d], False, kind="clone-depth")
+        if m.strip() != r:
+            ctx.disagree("clone-depth", {"obj": "clone-depth", "depth": d}, r, m.strip())
+        want = {0: "shallow", 1: "scoped", 2: "deep"}.get(d)
+        if want is not None and r != want:
+            ctx.fail("clone-depth", "clone(%d) dispatches to %s, documented: %s" % (d, r, want), {"obj": "clone-depth", "depth": d, "documented": want})
+
+
 def run(ctx):
     dendropy = __import__("dendropy")
     rng = ctx.rng
     ctx.set_budget(30, 600)
     pending = []
+    clone_dispatch(ctx, dendropy)
     quick = ctx.tier != "thorough"
     # the recursion-depth probe (known-finding candidate): a caterpillar deeper than the interpreter can deep-copy
     depth = sys.getrecursionlimit() // 2
@@ -1671,9 +1748,61 @@ def run(ctx):
                                                "each with 20 later mutations" % count)
 
 
+def search(ctx, broken):
+    """obligations broke (generation of Gen/C12Copy.lean or Gen/C08Kernels.lean, a bridge theorem, a disagreement): look for an input
+    on which the real code contradicts the statement, aimed at what the bridges cover - the attribute loops (objects with extra
+    attributes and annotations on every level, deep routes), the depth dispatch of clone, re-targeting (bound annotations), the
+    scoped seeding, and extraction through unifurcations"""
+    dendropy = __import__("dendropy")
+    rng = ctx.rng
+    pending = []
+    t_end = ctx.time_left() if hasattr(ctx, "time_left") else 30
+    n = 0
+    for objkind in ("tree", "treelist", "matrix", "ns"):
+        for route in ROUTES[objkind]:
+            for k in range(ctx.pick(6, 30)):
+                if ctx.out_of_time() and n > 40:
+                    break
+                run_case(ctx, dendropy, {"obj": objkind, "route": route, "seed": rng.getrandbits(40), "rich": True,
+                                         "max_leaves": rng.choice([2, 4, 6])}, pending)
+                n += 1
+            if len(pending) >= 100:
+                flush(ctx, pending)
+    # unifurcation chains through extract (the merge arithmetic) 
+    for k in range(ctx.pick(20, 100)):
+        shape = tu.rand_shape(rng, rng.randint(1, 5), p_poly=0.2, p_unary=0.5)
+        run_case(ctx, dendropy, {"obj": "tree", "route": "extract", "seed": rng.getrandbits(40), "rich": False, "shape": shape}, pending)
+    flush(ctx, pending)
+    # clone depths outside 0..2 must be refused
+    t = dendropy.Tree(taxon_namespace=dendropy.TaxonNamespace(["a"]))
+    for d in (3, -1, 7):
+        try:
+            t.clone(d)
+        except TypeError:
+            continue
+        except Exception as e:
+            if not __import__("common").is_library_exception(e):
+                raise
+        ctx.fail("clone-depth", "clone(%d) is not refused with TypeError" % d, {"obj": "clone-depth", "depth": d})
+    ctx.count("search_cases", n)
+
+
 def replay(ctx, rec):
     dendropy = __import__("dendropy")
     spec = dict(rec["replay"])
+    if spec.get("obj") == "clone-depth" and "documented" in spec:
+        clone_dispatch(ctx, dendropy)
+        return
+    if spec.get("obj") == "clone-depth":
+        t = dendropy.Tree(taxon_namespace=dendropy.TaxonNamespace(["a"]))
+        try:
+            t.clone(spec["depth"])
+        except TypeError:
+            return
+        except Exception:
+            pass
+        ctx.fail("clone-depth", "clone(%d) is not refused with TypeError" % spec["depth"], spec)
+        return
     for k in ("exception", "depth_class", "ops", "matrix_type"):
         spec.pop(k, None)
     if spec.get("obj") == "caterpillar" and spec.get("depth_rule") == "limit//2":
